@@ -400,23 +400,13 @@ func escText(s string) string {
 
 // ---------------------------------------------------------------- classifier (mirror of YsonSafe / RebuildSafe)
 
-var tagOrder = []string{"c18-long-precision", "c18-type-member", "c18-prepass-in-string", "c18-go-quote",
-	"c18-key-unescaped", "c18-double-nonfinite", "c18-date-range", "c18-dedup-empty"}
+// (the shapes c18-prepass-in-string and c18-dedup-empty were repaired by /repo commit 0cf3884e:
+// they are generated as before and must round-trip now; a recurrence is a plain violation)
+var tagOrder = []string{"c18-long-precision", "c18-type-member", "c18-go-quote",
+	"c18-key-unescaped", "c18-double-nonfinite", "c18-date-range"}
 
 var rtagOrder = []string{"c18-rebuild-text-empty-node", "c18-rebuild-tree-root", "c18-rebuild-tree-empty-text",
 	"c18-rebuild-dedup-registers"}
-
-func prepassHits(s string) bool {
-	if strings.Contains(s, ")") {
-		return true
-	}
-	for _, p := range []string{"Counter(", "Text(", "Tree(", "Int(", "Long("} {
-		if strings.Contains(s, p) {
-			return true
-		}
-	}
-	return strings.HasSuffix(s, "BinData(") || strings.HasSuffix(s, "Date(")
-}
 
 // goOnlyEscape: strconv.Quote renders the rune with an escape JSON does not know.
 func goOnlyEscape(s string) bool {
@@ -444,18 +434,12 @@ func (c *Ctx) Known(tag, format string, a ...any) {
 type classifier struct{ tags map[string]bool }
 
 func (c *classifier) qstr(s string) {
-	if prepassHits(s) {
-		c.tags["c18-prepass-in-string"] = true
-	}
 	if goOnlyEscape(s) {
 		c.tags["c18-go-quote"] = true
 	}
 }
 
 func (c *classifier) key(s string) {
-	if prepassHits(s) {
-		c.tags["c18-prepass-in-string"] = true
-	}
 	for _, r := range s {
 		if r == '"' || r == '\\' || r < 0x20 {
 			c.tags["c18-key-unescaped"] = true
@@ -503,13 +487,8 @@ func (c *classifier) value(v interface{}, root bool) {
 			c.tags["c18-date-range"] = true
 		}
 	case yson.Counter:
-		switch y.Type {
-		case crdt.LongCnt:
+		if y.Type == crdt.LongCnt {
 			c.long(y.Value.(int64))
-		case crdt.IntegerDedupCnt:
-			if len(y.Registers) == 0 {
-				c.tags["c18-dedup-empty"] = true
-			}
 		}
 	case yson.Text:
 		for _, n := range y.Nodes {
